@@ -17,5 +17,10 @@ TD_Rules == [global |-> [EVENT |-> << <<1, 1>> >>]]
 TD_Workers == {1, 2}
 TD_IdsOf == (1 :> <<"a">>) @@ (2 :> <<>>)
 TD_K == 2
+TD_Keys == {"A"}
+TD_RolesOf == [A |-> {"w"}]
+TD_DefaultRoles == {"a"}
+TD_ActionRoles == [save |-> {"w"}, query |-> {"r"}]
+TD_Whitelist == {"A"}
 Traces == <<>>
 =============================================================================
